@@ -99,7 +99,7 @@ Definition fromjson_tail (r : chain * bool) : M chain :=
     else match v with
          | LScalar _ _ _ (SStr s) :: _ =>
              match json_parse s with
-             | JPOk j => ret (unexport big_fuel false (json_to_x (S (json_depth j)) sec j))
+             | JPOk j => ret (unexport (S (x_depth (json_to_x (S (json_depth j)) sec j))) false (json_to_x (S (json_depth j)) sec j))
              | JPErr => err ;;; ret [LScalar sec true ScAlways SNull]
              | JPUnsupported => out_of_fuel ;;; ret invalid_access
              end
@@ -115,7 +115,7 @@ Definition fromjson_pure (r : chain * bool) : chain :=
     else match v with
          | LScalar _ _ _ (SStr s) :: _ =>
              match json_parse s with
-             | JPOk j => unexport big_fuel false (json_to_x (S (json_depth j)) sec j)
+             | JPOk j => unexport (S (x_depth (json_to_x (S (json_depth j)) sec j))) false (json_to_x (S (json_depth j)) sec j)
              | JPErr => [LScalar sec true ScAlways SNull]
              | JPUnsupported => invalid_access
              end
@@ -145,11 +145,11 @@ Definition tojson_post (v : chain) : chain :=
        end.
 
 Definition tostring_tail (v : chain) : M chain :=
-  let '(s, unk, sec) := to_string big_fuel v in
+  let '(s, unk, sec) := to_string (ts_need v) v in
   if unk then ret [LScalar sec true (ScType "string") SNull] else ret [str_layer sec false s].
 
 Definition tostring_post (v : chain) : chain :=
-  let '(s, unk, sec) := to_string big_fuel v in
+  let '(s, unk, sec) := to_string (ts_need v) v in
   if unk then [LScalar sec true (ScType "string") SNull] else [str_layer sec false s].
 
 Definition join_post (dv vv : chain) : chain := join_pure (dv, vok AccString dv) (vv, vok AccArrString vv).
@@ -191,7 +191,7 @@ Proof.
 Qed.
 Lemma tostring_tail_fixed v : fixedv (tostring_tail v) (tostring_post v).
 Proof.
-  unfold tostring_tail, tostring_post. destruct (to_string big_fuel v) as [[s unk] sec].
+  unfold tostring_tail, tostring_post. destruct (to_string (ts_need v) v) as [[s unk] sec].
   destruct unk; apply fixedv_ret.
 Qed.
 
@@ -209,8 +209,8 @@ Definition prov_out (p : provider) (xin : xval) : option xval :=
 Definition open_post (W : world) (pname : string) (iv X : chain) : Prop :=
   exists p, alookup pname (w_provs W) = Some p /\
     if negb (vok (AccIn (pv_in p)) iv) || contains_unknowns iv || w_check W then X = [unknown_layer false (pv_out p)]
-    else exists s u m o, export big_fuel iv = Some (XObj s u m) /\ prov_out p (XObj s u m) = Some o /\
-                         X = unexport big_fuel false o.
+    else exists s u m o, export_t iv = Some (XObj s u m) /\ prov_out p (XObj s u m) = Some o /\
+                         X = unexport (S (x_depth o)) false o.
 
 (* ------------------------------------------------------------------------------------------------ *)
 (* 2. the invariant                                                                                  *)
@@ -342,14 +342,14 @@ Definition open_tail (id : eid) (pname : string) (prov : option provider) (r : c
   | None => ret [unknown_layer false out_s]
   | Some p =>
       if negb ok || contains_unknowns iv || w_check W then ret [unknown_layer false out_s]
-      else match export big_fuel iv with
+      else match export_t iv with
            | Some (XObj s u m as xin) =>
                failed2 <- call W ;;
                emit (EvOpen id pname xin (ec_root E) (ec_name E)) ;;;
                let out := if failed2 then None
                           else match pv_beh p with PEcho => Some xin | PConst v => Some v | PFail => None end in
                match out with
-               | Some o => ret (unexport big_fuel false o)
+               | Some o => ret (unexport (S (x_depth o)) false o)
                | None => err ;;; ret [unknown_layer false out_s]
                end
            | Some _ => err ;;; ret [unknown_layer false out_s]
@@ -372,7 +372,7 @@ Lemma open_tail_mono id pname prov r : mono (open_tail id pname prov r).
 Proof.
   unfold open_tail. destruct r as [iv ok]. cbv zeta. destruct prov as [p|]; [|apply mono_ret].
   destruct (negb ok || contains_unknowns iv || w_check W); [apply mono_ret|].
-  destruct (export big_fuel iv) as [[s0 u t|s0 u l|s0 u m]|]; mono_tac; apply mono_call.
+  destruct (export_t iv) as [[s0 u t|s0 u l|s0 u m]|]; mono_tac; apply mono_call.
 Qed.
 
 Lemma open_tail_post id pname p iv ok s :
@@ -380,12 +380,12 @@ Lemma open_tail_post id pname p iv ok s :
   memo (snd (open_tail id pname (Some p) (iv, ok) s)) = memo s /\
   (if negb ok || contains_unknowns iv || w_check W
    then fst (open_tail id pname (Some p) (iv, ok) s) = [unknown_layer false (pv_out p)]
-   else exists s0 u m o, export big_fuel iv = Some (XObj s0 u m) /\ prov_out p (XObj s0 u m) = Some o /\
-                         fst (open_tail id pname (Some p) (iv, ok) s) = unexport big_fuel false o).
+   else exists s0 u m o, export_t iv = Some (XObj s0 u m) /\ prov_out p (XObj s0 u m) = Some o /\
+                         fst (open_tail id pname (Some p) (iv, ok) s) = unexport (S (x_depth o)) false o).
 Proof.
   unfold open_tail. cbv zeta.
   destruct (negb ok || contains_unknowns iv || w_check W); [intros _; split; reflexivity|].
-  destruct (export big_fuel iv) as [[s0 u t|s0 u l|s0 u m]|];
+  destruct (export_t iv) as [[s0 u t|s0 u l|s0 u m]|];
     try (intro Hc; exfalso; exact (not_clean_after_err (ret _) s (mono_ret _) Hc)).
   - rewrite bind_eq, bind_eq. unfold prov_out.
     set (s1 := snd (emit (EvOpen id pname (XObj s0 u m) (ec_root E) (ec_name E)) (snd (call W s)))).
